@@ -362,6 +362,7 @@ mutual
 def reprOK : V → Bool
   | .arr xs => reprOKL xs
   | .map kvs => reprOKKV kvs && nodupB (vkeys kvs)
+  | .tagged _ _ => false
   | _ => true
 def reprOKL : List V → Bool
   | [] => true
@@ -412,6 +413,7 @@ theorem torepr_ok : ∀ v, reprOK v = true → torepr v = .ok (norm v)
   | .float _, _ => by simp [torepr, norm]
   | .str _, _ => by simp [torepr, norm]
   | .bytes _, _ => by simp [torepr, norm]
+  | .tagged _ _, h => by simp [reprOK] at h
   | .arr xs, h => by
     simp only [reprOK] at h
     simp [torepr, norm, toreprL_ok xs h]
@@ -454,6 +456,9 @@ theorem veq_sound : ∀ a b, veq a b = true → a = b
   | .map xs, b, h => by
     cases b <;> simp [veq] at h
     rw [veqKV_sound xs _ h]
+  | .tagged t x, b, h => by
+    cases b <;> simp [veq] at h
+    rw [h.1, veq_sound x _ h.2]
 theorem veqL_sound : ∀ a b, veqL a b = true → a = b
   | [], b, h => by cases b <;> simp_all [veqL]
   | x :: xs, b, h => by
